@@ -1,3 +1,4 @@
+import AM.Gen.Consts
 import AM.Proofs.Forms.AcceptedKey
 import AM.Proofs.Forms.AcceptedCert
 import AM.Proofs.Forms.AcceptedPassword
@@ -30,6 +31,11 @@ and for accepted forms the hand-off of the login. The regular expressions, both 
 and the metric labels this is proved about are regenerated from the source on every run. -/
 namespace AM.C06
 open AM AM.Rx AM.Sshd AM.Spec AM.Gen
+
+/-- `Cfg.node` / `Cfg.mid` stand for this node's name and machine id: `RunNamedPipe` passes what `GetNodeName` and
+`GetMachineID` returned to `NewSshdProcessor`, in that order (regenerated fact) -/
+theorem gen_identity_wiring : AM.Gen.identityWiredInOrder = true := rfl
+
 
 theorem form_correct (cfg : Cfg) (pid : Str) (f : Form) (fs : List Str) (ok : Bool) (h : Handoff)
     (hd : inDomain f fs = true) (hpid : f.accepted = true → ∃ n, atoi pid = some n) :
